@@ -1,4 +1,5 @@
 import ACModel.Props.C01
+import ACModel.Proofs.Rows
 /-
   C02 — Carved features respect max_n_mod, min_freq_mod and dev robustness
 
@@ -112,11 +113,200 @@ theorem winner_min_freq (cfg : Cfg) (train : Table) (dev : Option (List (String 
   rw [List.all_eq_true] at this
   simpa using this f hf
 
+
+/-! ## From the table to the rows of the transformed training column
+
+The search works on a per-modality table; C02 speaks of the rows that `transform` labels.  The two
+are tied here: when the table counts the rows of the training column (`Counts`, what
+`_aggregator` computes; the harness evaluates it on the tables it hands to the model), the `i`-th
+group of the fitted grouping holds exactly the rows that come out with the `i`-th label (C04:
+`transform_seen_qual` / `_quant` send a row to the label of the group holding its value, distinct
+groups having distinct labels), so the frequency test passed by the winner is a statement about
+the output column. -/
+open RowLemmas
+
+/-- the table counts the rows of a column of modalities, and none of its rows is the NaN row of a
+    modality absent from the sample (train tables never have one) -/
+def Counts (t : List (String × Row)) (col : List String) : Prop :=
+  ∀ l, (lookupRow t l).n = col.count l ∧ (lookupRow t l).poison = false
+
+/-- the grouping a fitted feature ends with: pairwise disjoint, non-empty groups covering the column -/
+structure Covers (comb : List (List String)) (col : List String) : Prop where
+  nodup : comb.flatten.Nodup
+  nonempty : ∀ g ∈ comb, g ≠ []
+  cover : ∀ v ∈ col, v ∈ comb.flatten
+
+theorem grouper_rows (cfg : Cfg) (hns : cfg.sortGroupsByLabel = false) (t : List (String × Row)) :
+    ∀ (comb : List (List String)), (∀ g ∈ comb, g ≠ []) →
+    (grouper cfg t comb).map (·.2) = comb.map (groupRow t) := by
+  intro comb hne
+  unfold grouper
+  simp only [hns, Bool.false_eq_true, if_false]
+  induction comb with
+  | nil => rfl
+  | cons g rest ih =>
+    have ih := ih (fun g' hg' => hne g' (List.mem_cons_of_mem _ hg'))
+    cases g with
+    | nil => exact absurd rfl (hne [] (List.mem_cons_self ..))
+    | cons l tl => simp only [List.filterMap_cons, List.map_cons, ih, groupRow]
+
+/-- the row of the `i`-th group counts the rows of the column that `transform` sends to the `i`-th label -/
+theorem group_row_counts (t : List (String × Row)) (col : List String) (comb : List (List String))
+    (hc : Counts t col) (hcov : Covers comb col) (i : Nat) (hi : i < comb.length) :
+    (groupRow t comb[i]).n = (col.map (groupIdx comb)).count i ∧
+    (groupRow t comb[i]).poison = false := by
+  unfold groupRow
+  constructor
+  · rw [fold_rows_n, count_groupIdx col comb hcov.nodup i hi]
+    have hnd : comb[i].Nodup := nodup_of_mem_flatten comb hcov.nodup _ (List.getElem_mem _)
+    rw [← sum_count_eq_countP col comb[i] hnd]
+    simp only [Row.zero, Nat.zero_add]
+    congr 1
+    apply List.map_congr_left
+    intro x _
+    exact (hc x).1
+  · rw [fold_rows_poison]
+    simp only [Row.zero, Bool.false_or]
+    rw [List.any_eq_false]
+    intro x _
+    simp [(hc x).2]
+
+/-- the frequencies `_test_viability` looks at are the shares of the rows that `transform` sends to each label -/
+theorem freqs_rows (cfg : Cfg) (hns : cfg.sortGroupsByLabel = false) (t : List (String × Row))
+    (col : List String) (comb : List (List String)) (hc : Counts t col) (hcov : Covers comb col) :
+    freqs ((grouper cfg t comb).map (·.2)) = (List.range comb.length).map (fun i =>
+      if col.length == 0 then (0 : Rat) else (((col.map (groupIdx comb)).count i : Nat) : Rat) / ((col.length : Nat) : Rat)) := by
+  rw [grouper_rows cfg hns t comb hcov.nonempty]
+  have hrows : ∀ j (hj : j < comb.length),
+      ((comb.map (groupRow t))[j]'(by simpa using hj)).n = (col.map (groupIdx comb)).count j ∧
+      ((comb.map (groupRow t))[j]'(by simpa using hj)).poison = false := by
+    intro j hj
+    rw [List.getElem_map]
+    exact group_row_counts t col comb hc hcov j hj
+  have hnop : ∀ r ∈ comb.map (groupRow t), r.poison = false := by
+    intro r hr
+    obtain ⟨j, hj, rfl⟩ := List.getElem_of_mem hr
+    exact (hrows j (by simpa using hj)).2
+  have htot : (((comb.map (groupRow t)).filter (fun r => !r.poison)).map (·.n)).foldl (· + ·) 0
+      = col.length := by
+    rw [List.filter_eq_self.2 (fun r hr => by simp [hnop r hr]), foldl_add_nat, Nat.zero_add, List.map_map]
+    rw [← sum_countP_groups col comb hcov.nodup hcov.cover]
+    congr 1
+    apply List.map_congr_left
+    intro g hg
+    obtain ⟨j, hj, rfl⟩ := List.getElem_of_mem hg
+    have := (hrows j hj).1
+    rw [List.getElem_map, count_groupIdx col comb hcov.nodup j hj] at this
+    exact this
+  unfold freqs
+  rw [htot]
+  apply List.ext_getElem
+  · simp
+  · intro i h1 h2
+    have hi : i < comb.length := by simpa using h1
+    obtain ⟨hn, hp⟩ := hrows i hi
+    simp only [List.getElem_map, List.getElem_range] at hn hp ⊢
+    rw [hp, hn]
+    simp
+
+/-- **Every label of the transformed training column is carried by at least `min_freq_mod` of its rows**:
+    for a grouping that passed the frequency test of `_test_viability` on a table counting the rows of `col`,
+    the number of rows whose value lies in the `i`-th group (the rows `transform` gives the `i`-th label)
+    is at least `min_freq_mod · len(col)`, for every group. -/
+theorem fitted_groups_frequent (cfg : Cfg) (hns : cfg.sortGroupsByLabel = false) (t : List (String × Row))
+    (col : List String) (comb : List (List String)) (hc : Counts t col) (hcov : Covers comb col)
+    (hmf : minFreqOk cfg ((grouper cfg t comb).map (·.2)) = true) :
+    ∀ i, i < comb.length → cfg.minFreqMod * ((col.length : Nat) : Rat) ≤ (((col.map (groupIdx comb)).count i : Nat) : Rat) := by
+  intro i hi
+  unfold minFreqOk at hmf
+  rw [freqs_rows cfg hns t col comb hc hcov, List.all_eq_true] at hmf
+  have hmem := hmf _ (List.mem_map.2 ⟨i, List.mem_range.2 hi, rfl⟩)
+  simp only [decide_eq_true_eq] at hmem
+  by_cases h0 : col.length = 0
+  · have : col = [] := List.length_eq_zero_iff.1 h0
+    subst this
+    simp
+  · have hb : (col.length == 0) = false := by simpa using h0
+    rw [hb] at hmem
+    simp only [Bool.false_eq_true, if_false] at hmem
+    have hpos : (0 : Rat) ≤ ((col.length : Nat) : Rat) := by exact_mod_cast Nat.zero_le _
+    have hne : ((col.length : Nat) : Rat) ≠ 0 := by exact_mod_cast h0
+    have := Rat.mul_le_mul_of_nonneg_right hmem hpos
+    rwa [Rat.div_mul_cancel hne] at this
+
+/-- **Every label is present on the dev sample**: when the table of the dev sample counts the rows of the dev
+    column, a grouping that passed the dev tests has, for every group, at least one dev row and at least
+    `min_freq_mod` of the dev rows: transforming `X_dev` yields the same label set as transforming `X`. -/
+theorem dev_rows (cfg : Cfg) (hns : cfg.sortGroupsByLabel = false) (train d : List (String × Row))
+    (colDev : List String) (comb : List (List String)) (hc : Counts d colDev) (hcov : Covers comb colDev)
+    (h : (viability cfg train (some d) comb).viable = true) :
+    ∀ i, i < comb.length → 0 < (colDev.map (groupIdx comb)).count i ∧
+      cfg.minFreqMod * ((colDev.length : Nat) : Rat) ≤ (((colDev.map (groupIdx comb)).count i : Nat) : Rat) := by
+  intro i hi
+  obtain ⟨⟨hmf, hpos⟩, _, _⟩ := viable_dev h
+  refine ⟨?_, fitted_groups_frequent cfg hns d colDev comb hc hcov hmf i hi⟩
+  rw [freqs_rows cfg hns d colDev comb hc hcov, List.all_eq_true] at hpos
+  have hmem := hpos _ (List.mem_map.2 ⟨i, List.mem_range.2 hi, rfl⟩)
+  simp only [decide_eq_true_eq] at hmem
+  by_cases h0 : colDev.length = 0
+  · have hb : (colDev.length == 0) = true := by simpa using h0
+    rw [hb] at hmem
+    simp at hmem
+  · have hb : (colDev.length == 0) = false := by simpa using h0
+    rw [hb] at hmem
+    simp only [Bool.false_eq_true, if_false] at hmem
+    apply Nat.pos_of_ne_zero
+    intro hz
+    rw [hz] at hmem
+    have hz0 : (((0 : Nat) : Rat)) / ((colDev.length : Nat) : Rat) = 0 := by
+      rw [Rat.div_def]; simp
+    rw [hz0] at hmem
+    exact absurd hmem (by decide)
+
+/-- **At most as many labels as groups**: the transformed training column only holds group indices below the
+    number of groups (which `stage1_group_count` / `stage2_group_count` bound by `max_n_mod`). -/
+theorem fitted_labels_bounded (col : List String) (comb : List (List String)) (hcov : Covers comb col) :
+    ∀ k ∈ col.map (groupIdx comb), k < comb.length := by
+  intro k hk
+  obtain ⟨v, hv, rfl⟩ := List.mem_map.1 hk
+  exact groupIdx_lt comb v (hcov.cover v hv)
+
+/-- a cut of distinct base labels covers every column made of these labels -/
+theorem covers_of_cut {labels : List String} {comb : List (List String)} {col : List String}
+    (hcut : IsCut labels comb) (hnd : labels.Nodup) (hcol : ∀ v ∈ col, v ∈ labels) : Covers comb col :=
+  ⟨by rw [hcut.1]; exact hnd, hcut.2, by rw [hcut.1]; exact hcol⟩
+
+/-- **Stage 1, on the rows.**  Whatever grouping the search over the consecutive groupings of distinct base labels
+    returns, the transformed training column (rows ↦ index of the group holding their base label) has at most
+    `max_n_mod` distinct values, each carried by at least `min_freq_mod` of the rows. -/
+theorem stage1_rows (cfg : Cfg) (hns : cfg.sortGroupsByLabel = false) (train : Table) (dev : Option (List (String × Row)))
+    (labels : List String) (hnd : labels.Nodup) (col : List String) (hcol : ∀ v ∈ col, v ∈ labels)
+    (hc : Counts train.rows col) (ws : List Cand) (dropOk : Bool)
+    (h : search (candidates cfg train dev (consecutiveCombinations labels cfg.maxNMod)) 0 = .best ws dropOk) :
+    ∀ w ∈ ws, (∀ k ∈ col.map (groupIdx w.comb), k < cfg.maxNMod) ∧
+      ∀ i, i < w.comb.length →
+        cfg.minFreqMod * ((col.length : Nat) : Rat) ≤ (((col.map (groupIdx w.comb)).count i : Nat) : Rat) := by
+  intro w hw
+  obtain ⟨_, hle, hcut⟩ := stage1_group_count cfg train dev labels ws dropOk h w hw
+  obtain ⟨hc', hv, _⟩ := search_best_sound _ ws dropOk h w hw
+  obtain ⟨_, hveq⟩ := mem_candidates hc'
+  rw [hveq] at hv
+  have hcov := covers_of_cut hcut hnd hcol
+  refine ⟨fun k hk => Nat.lt_of_lt_of_le (fitted_labels_bounded col w.comb hcov k hk) hle, ?_⟩
+  exact fitted_groups_frequent cfg hns train.rows col w.comb hc hcov (viable_train hv).1
+
 /-! ## Non-vacuity -/
 private def t0 : List (String × Row) :=
   [("a", ⟨10, 1, 0, false⟩), ("b", ⟨10, 5, 0, false⟩), ("c", ⟨10, 9, 0, false⟩)]
 private def cfg0 : Cfg := { kind := .binary, sortBy := .cramerv, minFreqMod := 1/10, maxNMod := 3, dropna := true }
 example : (viability cfg0 t0 none [["a"], ["b", "c"]]).viable = true := by decide +kernel
 example : (viability cfg0 t0 (some t0) [["a"], ["b"], ["c"]]).certain = true := by decide +kernel
+
+private def col0 : List String := ["a", "b", "c", "c", "b", "a", "a", "c", "b", "b"]
+private def t1 : List (String × Row) := [("a", ⟨3, 1, 0, false⟩), ("b", ⟨4, 2, 0, false⟩), ("c", ⟨3, 3, 0, false⟩)]
+example : ∀ l ∈ ["a", "b", "c", "zz"], (lookupRow t1 l).n = col0.count l ∧ (lookupRow t1 l).poison = false := by decide
+example : Covers [["a"], ["b", "c"]] col0 := ⟨by decide, by decide, by decide⟩
+example : minFreqOk cfg0 ((grouper cfg0 t1 [["a"], ["b", "c"]]).map (·.2)) = true := by decide +kernel
+example : col0.map (groupIdx [["a"], ["b", "c"]]) = [0, 1, 1, 1, 1, 0, 0, 1, 1, 1] := by decide
 
 end C02
